@@ -18,7 +18,7 @@ from . import use_repo
 from .vloop import VLoop, Wedged, Horizon, patched_clock
 
 use_repo()
-from asynciojobs import Scheduler, PureScheduler, Job, AbstractJob   # noqa: E402
+from asynciojobs import Scheduler, PureScheduler, Job, AbstractJob, PrintJob   # noqa: E402
 
 logging.getLogger("asyncio").setLevel(logging.CRITICAL + 1)
 warnings.filterwarnings("ignore", category=RuntimeWarning)
@@ -37,7 +37,18 @@ class CustomError(Exception):
         self.who, self.detail = who, detail
 
 
+class Fatal(BaseException):
+    """an application-defined BaseException: asyncio stores it in the task like
+    any other exception (only KeyboardInterrupt / SystemExit are special)"""
+
+
 def make_exception(kind, who):
+    if kind == 'base':
+        return Fatal(who)
+    if kind == 'empty':
+        return Boom()                                   # str(exc) == ''
+    if kind == 'multiline':
+        return Boom("%s failed\nsecond line\n" % who)
     if kind == 'timeout':
         return TimeoutError("job %s gave up" % who)     # a job's own TimeoutError is an ordinary exception
     if kind == 'key':
@@ -168,6 +179,9 @@ class VJob(HashMixin, AbstractJob):
     async def co_shutdown(self):
         return await sd_body(self.trace, self.spec, self.vid)
 
+    def details(self):
+        return "details of %s" % self.vid
+
 
 class VCoroJob(HashMixin, Job):
     """coroutine-based flavour: asynciojobs.Job around coroutine objects"""
@@ -182,6 +196,38 @@ class VCoroJob(HashMixin, Job):
                      forever=spec.get('forever', False),
                      critical=spec.get('critical', True),
                      label=spec.get('label', spec['id']))
+
+
+class VPrintJob(HashMixin, PrintJob):
+    """the library's own PrintJob (prints, optionally sleeps; cannot fail),
+    observed from a subclass; exists in three message flavours"""
+
+    def __init__(self, trace, spec):
+        self.trace = trace
+        self.spec = spec
+        self.vid = spec['id']
+        self._vh = spec.get('hash', 0)
+        messages = {'none': (), 'int': (3, 'left'), 'str': ('message of %s' % spec['id'], 'more')}[spec.get('print', 'str')]
+        PrintJob.__init__(self, *messages, sleep=spec.get('dur') or None, banner=spec.get('banner'),
+                          label=spec.get('label', spec['id']))
+        self.forever = spec.get('forever', False)
+        self.critical = spec.get('critical', True)
+
+    async def co_run(self):
+        self.trace.log('enter', self.vid)
+        try:
+            value = await PrintJob.co_run(self)
+        except asyncio.CancelledError:
+            self.trace.log('cancel', self.vid)
+            self.trace.log('cancel_done', self.vid, interrupted=False)
+            raise
+        self.trace.log('return', self.vid, val=value)
+        return value
+
+    async def co_shutdown(self):
+        self.trace.log('sd_enter', self.vid)
+        await PrintJob.co_shutdown(self)
+        self.trace.log('sd_return', self.vid)
 
 
 class SchedMixin(HashMixin):
@@ -238,6 +284,8 @@ def build(trace, spec, top=True, registry=None):
     for jspec in spec['jobs']:
         if is_sched_spec(jspec):
             job = build(trace, jspec, top=False, registry=registry)
+        elif jspec.get('print'):
+            job = VPrintJob(trace, jspec)
         elif jspec.get('coro'):
             job = VCoroJob(trace, jspec)
         else:
